@@ -46,13 +46,13 @@ def make(cx, mido, kind, tag, delta):
     if kind == 'key_signature':
         return mido.MetaMessage(kind, time=delta, key=[KEY_NAMES[0], 'C', KEY_NAMES[-1]][cx.choice(tag + 'key', 3)])
     if kind in TEXT_TYPES:
-        text = TEXT_MENU[cx.choice(tag + 'text', len(TEXT_MENU))]
+        text = TEXT_MENU[cx.choice(tag + 'text', len(TEXT_MENU))] if not getattr(cx, 'one_text', False) else TEXT_MENU[1]
         return mido.MetaMessage(kind, time=delta, **{TEXT_TYPES[kind][1]: text})
     if kind == 'sequencer_specific':
         return mido.MetaMessage(kind, time=delta, data=tuple(cx.int('%sd%d' % (tag, i), 0, 255) for i in range(2)))
     if kind in ('unknown_meta', 'unknown_meta0'):
         tb = cx.int(tag + 'type_byte', 0, 127)
-        cx.assume(cx.And(*[tb != a for a in ASSIGNED]))
+        cx.assume_fn(lambda: cx.And(*[tb != a for a in ASSIGNED]))
         n = 2 if kind == 'unknown_meta' else 0
         return mido.UnknownMetaMessage(tb, data=[cx.int('%sd%d' % (tag, i), 0, 255) for i in range(n)], time=delta)
     raise AssertionError(kind)
@@ -252,11 +252,12 @@ def same_event(cx, a, b):
 
 def ref_vlq_encode(cx, n, pad=0):
     """Minimal VLQ of n (forks on the size class) with `pad` leading 0x80."""
-    out = [n % 128]
-    n = n // 128
+    # (n >= 0; masks and shifts instead of % and //: same arithmetic, far cheaper to bit-blast)
+    out = [n & 127]
+    n = n >> 7
     while bool(n > 0):
-        out.append(128 + n % 128)
-        n = n // 128
+        out.append(128 + (n & 127))
+        n = n >> 7
     return [128] * pad + out[::-1]
 
 
@@ -266,7 +267,7 @@ def ref_encode(cx, fmt, division, tracks, choose):
     VLQ padding 0..2, header chunk length 6..8)."""
     extra = choose('hdr_extra', 3)
     hdr = [0, 0, 0, 6 + extra, fmt >> 8 & 255 if isinstance(fmt, int) else 0, fmt & 255,
-           len(tracks) >> 8, len(tracks) & 255] + [division // 256, division % 256] + [0x5A] * extra
+           len(tracks) >> 8, len(tracks) & 255] + [division >> 8, division & 255] + [0x5A] * extra
     out = list(b'MThd') + hdr
     for ti, evs in enumerate(tracks):
         body = []
